@@ -8,7 +8,7 @@ export GOFLAGS=-mod=mod GOPROXY=off GOSUMDB=off GOTOOLCHAIN=local CGO_ENABLED=0
 mkdir -p build evidence replays
 export GOCACHE="$here/build/gocache"
 (cd tools/srcfacts && go build -o "$here/build/srcfacts" .)
-build/srcfacts "${VERIF_REPO:-/repo}" coq/GoRegex.v || echo "setup: translator failed on the current tree (the checks will report it)"
+build/srcfacts "${VERIF_REPO:-/repo}" coq/SrcRegex.v || echo "setup: translator failed on the current tree (the checks will report it)"
 (cd coq && coq_makefile -f _CoqProject -o Makefile >/dev/null && timeout 3000 make -j16 -k > ../build/coq-build.log 2>&1) || echo "setup: some Coq files did not build (the checks will report which)"
 modeldrv/build.sh
 echo "setup done"
